@@ -72,6 +72,10 @@ def main():
                 os.makedirs(os.path.dirname(p), exist_ok=True)
                 with open(p, 'w') as f:
                     f.write(text)
+            for link, target in (case.get('symlinks') or {}).items():
+                lp = os.path.join(base, link)
+                os.makedirs(os.path.dirname(lp), exist_ok=True)
+                os.symlink(os.path.relpath(os.path.join(base, target), os.path.dirname(lp)), lp)
         with ThreadPoolExecutor(max_workers=int(payload.get('workers', 8))) as ex:
             results = list(ex.map(one, zip(payload['cases'], bases)))
     finally:
